@@ -187,6 +187,12 @@ pub fn history(cfg: &Cfg, rep: &mut Report, fl: Fl, h: u64, steps: usize, mode: 
     let mut large_done = 0u32;
     for step in 0..steps {
         // ---- ledger moves (approval / operator expiry lattices) ----
+        if mode == Mode::Ownership && rng.chance(1, 60) {
+            // owners, balances and enumerations must outlive any number of ledgers
+            w.set_ledger(w.ledger() + 600_000);
+            rep.op(format!("ledger -> {}", w.ledger()));
+            rep.count("ledger_moves");
+        }
         if mode == Mode::Auth && rng.chance(1, 5) {
             let cur = w.ledger();
             let mut ts: Vec<u32> = vec![cur + 1];
